@@ -118,43 +118,55 @@ Definition unit_of (u : str) : option Z :=
 
 Definition starts_digit (s : str) : bool := match s with a :: _ => is_digit a | [] => false end.
 
-(* the loop over number-with-optional-fraction + unit groups; d is a uint64. The fraction is computed exactly here
-   (Go: float64(f) * (float64(unit)/scale), see NOTES.md for the domain on which they agree). *)
+(* one group: number with optional fraction, then a unit; result: its value in ns and the rest.
+   The fraction is computed exactly here (Go: float64(f) * (float64(unit)/scale), see NOTES.md
+   for the domain on which they agree). *)
+Definition dur_group (s : str) : option (Z * str) :=
+  match s with
+  | [] => None
+  | a :: _ =>
+    if negb (unit_stop a) then None else
+    match leading_int 0 s with
+    | None => None
+    | Some (v, s1) =>
+      let pre := is_digit a in
+      let '(f, scale, s2, post) :=
+          match s1 with
+          | b :: r => if Ascii.eqb b "." then
+                        let '(x, sc, rem) := leading_fraction 0 1 false r in (x, sc, rem, starts_digit r)
+                      else (0, 1, s1, false)
+          | [] => (0, 1, s1, false)
+          end in
+      if negb pre && negb post then None else
+      let '(u, s3) := span_unit s2 in
+      match u with
+      | [] => None
+      | _ =>
+        match unit_of u with
+        | None => None
+        | Some unit =>
+          if two63 / unit <? v then None else
+          let v1 := v * unit in
+          let v2 := if 0 <? f then v1 + (f * unit) / scale else v1 in
+          if (0 <? f) && (two63 <? v2) then None else Some (v2, s3)
+        end
+      end
+    end
+  end.
+
+(* the loop over the groups; d is a uint64 *)
 Fixpoint dur_loop (fuel : nat) (d : Z) (s : str) : option Z :=
   match s with
   | [] => Some d
-  | a :: _ =>
+  | _ :: _ =>
     match fuel with
     | O => None
     | S fuel' =>
-      if negb (unit_stop a) then None else
-      match leading_int 0 s with
+      match dur_group s with
       | None => None
-      | Some (v, s1) =>
-        let pre := is_digit a in
-        let '(f, scale, s2, post) :=
-            match s1 with
-            | b :: r => if Ascii.eqb b "." then
-                          let '(x, sc, rem) := leading_fraction 0 1 false r in (x, sc, rem, starts_digit r)
-                        else (0, 1, s1, false)
-            | [] => (0, 1, s1, false)
-            end in
-        if negb pre && negb post then None else
-        let '(u, s3) := span_unit s2 in
-        match u with
-        | [] => None
-        | _ =>
-          match unit_of u with
-          | None => None
-          | Some unit =>
-            if two63 / unit <? v then None else
-            let v1 := v * unit in
-            let v2 := if 0 <? f then v1 + (f * unit) / scale else v1 in
-            if (0 <? f) && (two63 <? v2) then None else
-            let d' := (d + v2) mod two64 in
-            if two63 <? d' then None else dur_loop fuel' d' s3
-          end
-        end
+      | Some (v2, s3) =>
+        let d' := (d + v2) mod two64 in
+        if two63 <? d' then None else dur_loop fuel' d' s3
       end
     end
   end.
@@ -550,10 +562,41 @@ Definition parse_time_argument := parse_time_argument_gen true.
 Definition parse_time_argument_orig := parse_time_argument_gen false.
 
 (* now1 / now2: the clock readings while parsing `first` and `last` (an empty `last` is "now") *)
+Definition first_of (loc now1 : Z) (a : str) : res Z :=
+  match a with [] => Ok 0 | _ => parse_time_argument loc now1 a end.
+Definition last_of (loc now2 : Z) (b : str) : res Z :=
+  match b with [] => Ok now2 | _ => parse_time_argument loc now2 b end.
 Definition parse_time_range (loc now1 now2 : Z) (a b : str) : res (Z * Z) :=
-  res_bind (match a with [] => Ok 0 | _ => parse_time_argument loc now1 a end) (fun first =>
-  res_bind (match b with [] => Ok now2 | _ => parse_time_argument loc now2 b end) (fun last =>
+  res_bind (first_of loc now1 a) (fun first =>
+  res_bind (last_of loc now2 b) (fun last =>
   if last <? first then Err else Ok (first, last))).
+
+(* ------------------------------------------------------------------ rendering relative specifications *)
+(* decimal numeral without leading zeros *)
+Fixpoint dec_fuel (f : nat) (n : Z) : str :=
+  match f with
+  | O => []
+  | S f' => if n <? 10 then [dchar n] else dec_fuel f' (n / 10) ++ [dchar (n mod 10)]
+  end.
+Definition dec (n : Z) : str := dec_fuel (S (Z.to_nat (Z.log2 n))) n.
+
+Inductive runit := UD | UH | UM | US.
+Definition uchar (u : runit) : ascii := match u with UD => "d" | UH => "h" | UM => "m" | US => "s" end.
+Definition usecs (u : runit) : Z := match u with UD => 86400 | UH => 3600 | UM => 60 | US => 1 end.
+Definition group := (Z * runit)%type.
+Definition render_group (g : group) : str := dec (fst g) ++ [uchar (snd g)].
+Definition total (gs : list group) : Z := fold_right (fun g acc => usecs (snd g) * fst g + acc) 0 gs.
+
+(* "-" XdYhZm... : groups written one after the other *)
+Definition render_compact (gs : list group) : str := "-" :: List.concat (map render_group gs).
+(* "-" Xd:Yh:Zm... : groups joined by ':' *)
+Fixpoint join_colon (gs : list group) : str :=
+  match gs with
+  | [] => []
+  | [g] => render_group g
+  | g :: r => render_group g ++ ":" :: join_colon r
+  end.
+Definition render_colon (gs : list group) : str := "-" :: join_colon gs.
 
 (* ------------------------------------------------------------------ Time.Format for the same elements *)
 Record civil := { c_year : Z; c_month : Z; c_day : Z; c_hour : Z; c_min : Z; c_sec : Z; c_wday : Z; c_off : Z }.
